@@ -283,8 +283,9 @@ package ristretto
 //@   atomic
 //@   requires p != nil
 //@   modifies p.evict.used, p.evict.keyCosts[*], gcMtot[*]
-//@   ensures [C03,C06,C13] #map wfLFU(p.evict) && gcHas(p.evict.keyCosts, key) == old(gcHas(p.evict.keyCosts, key)) && (gcHas(p.evict.keyCosts, key) ==> p.evict.keyCosts[key] == cost)
+//@   ensures [C03,C13] #map wfLFU(p.evict) && gcHas(p.evict.keyCosts, key) == old(gcHas(p.evict.keyCosts, key)) && (gcHas(p.evict.keyCosts, key) ==> p.evict.keyCosts[key] == cost)
 //@   ensures [C03] #used p.evict.used == old(p.evict.used)+ite(old(gcHas(p.evict.keyCosts, key)), cost-old(p.evict.keyCosts[key]), int64(0))
+//@   ensures [C06] #keyset gcHas(p.evict.keyCosts, key) == old(gcHas(p.evict.keyCosts, key))
 //@   ensures [C13] #frame forall k uint64 :: k != key ==> gcHas(p.evict.keyCosts, k) == old(gcHas(p.evict.keyCosts, k)) && p.evict.keyCosts[k] == old(p.evict.keyCosts[k])
 //@   ensures [C17] #conserved p.metrics != nil && p.evict.metrics == p.metrics ==> costSlack(p.metrics, p.evict) == old(costSlack(p.metrics, p.evict)) && keySlack(p.metrics, p.evict) == old(keySlack(p.metrics, p.evict))
 
